@@ -20,9 +20,16 @@
     - [KJump from to]: a sweep that was not refused ([SInflightFull]) started with a STALE cursor
       ([stale (d_log d) (dr_cursor rq) = true], the log rolled past it): it continues at the log's
       base [to]; the entries [from, to) were evicted unforwarded ("within retention" proviso);
-    - [KRes]: a new connection RESUMED a saved session: one marker per restored non-shared request,
-      under the key of the NEW link.  Nothing is known about where such a request continues (its
-      cursor was saved, possibly rewound to the first unacknowledged forward: C08). *)
+    - [KRes client c0]: a new connection of [client] RESUMED a saved session: one marker per restored
+      non-shared request, under the key of the NEW link; [c0] = the offset of the cursor the request
+      was restored with.  It is the first event of its key; the first sweep starts at [c0] (if that
+      cursor is stale the jump goes to the log's base, which may lie on either side of [c0]);
+    - [KEnd client r wnd]: the connection of [client] (clean_session = false) was removed and its
+      session saved: one marker per saved non-shared request, under the key of the OLD link; [r] =
+      the offset of the saved (rewound) cursor, the RESUME POINT; [wnd] = the offsets of the
+      window entries of that filter log ([o_inflight], entries with a log cursor) at that moment,
+      i.e. the unacknowledged QoS>0 forwards.  [KEnd] events are NOT part of [ktrace] (the chain of
+      a key); [kend K tr] lists them. *)
 From Rumqtt Require Import Log.Spec Log.ListFacts Router.ExactLog Router.ExactInv Router.WindowFrame.
 From Rumqtt Require Import Router.Model Router.RunDefs.
 From Coq Require Import ZifyBool ZifyN ZifyNat Sorted.
@@ -32,7 +39,11 @@ Inductive kev :=
 | KFwd (off : N) (p : publish)
 | KJump (from to : N)
 | KSub (e : N)
-| KRes.
+| KRes (client : str) (c0 : N)
+| KEnd (client : str) (r : N) (wnd : list N).
+
+Definition is_res (a : kev) : bool := match a with KRes _ _ => true | _ => false end.
+Definition is_end (a : kev) : bool := match a with KEnd _ _ _ => true | _ => false end.
 
 Definition dkey : Type := (N * str * N)%type.          (* link, subscription filter, filter log *)
 Definition dev : Type := (N * dkey * kev)%type.         (* connection key, event key, event *)
@@ -42,20 +53,20 @@ Definition dkey_eqb (a b : dkey) : bool :=
 
 (** the events of one key, in order *)
 Definition ktrace (K : dkey) (tr : list dev) : list kev :=
-  map snd (filter (fun e : dev => dkey_eqb K (snd (fst e))) tr).
+  map snd (filter (fun e : dev => dkey_eqb K (snd (fst e)) && negb (is_end (snd e))) tr).
 
 (** where the request continues after the event *)
 Definition nxt (a : kev) : N :=
-  match a with KFwd off _ => off + 1 | KJump _ to => to | KSub e => e | KRes => 0 end.
+  match a with KFwd off _ => off + 1 | KJump _ to => to | KSub e => e | KRes _ c0 => c0 | KEnd _ r _ => r end.
 
 (** [b] may follow [a] in the trace of one key *)
 Definition ok_next (a b : kev) : Prop :=
-  match a, b with
-  | KRes, _ => True
-  | _, KRes => False
-  | _, KFwd off _ => off = nxt a
-  | _, KJump from to => from = nxt a /\ from <= to
-  | _, KSub e => nxt a <= e
+  match b with
+  | KFwd off _ => off = nxt a
+  | KJump from to => from = nxt a /\ (is_res a = false -> from <= to)
+  | KSub e => nxt a <= e
+  | KRes _ _ => False
+  | KEnd _ _ _ => False
   end.
 
 Fixpoint kchain_from (a : kev) (l : list kev) : Prop :=
@@ -206,6 +217,30 @@ Fixpoint handle_packets_d (st : rstate) (id : N) (client : str) (pks : list pack
       else do (st2, fl2, evs2) <- handle_packets_d st1 id client r fl1; Ok (st2, fl2, evs ++ evs2)
   end.
 
+(** offsets of the window entries of filter log [idx] (entries with a log cursor) *)
+Definition wnd_offs (infl : list (N * N * option cursor)) (idx : N) : list N :=
+  flat_map (fun e : N * N * option cursor =>
+              match e with (_, fi, Some cu) => if fi =? idx then [snd cu] else [] | _ => [] end) infl.
+
+Definition unshared_b (rq : drequest) : bool := match dr_group rq with None => true | Some _ => false end.
+
+(** the markers of [handle_disconnection st id _ = Ok st'], read off its EFFECT: if connection [id]
+    was live with clean_session = false, one [KEnd] per non-shared request of the session now
+    saved under its tracker's client id *)
+Definition disc_ghost (st : rstate) (id : N) (st' : rstate) : list dev :=
+  match slab_get (r_obufs st) id, slab_get (r_trackers st) id, slab_get (r_conns st) id with
+  | Some o, Some t, Some c =>
+      if c_clean c then []
+      else match al_get str_eqb (tr_id t) (r_graveyard st') with
+           | Some (Some ss) =>
+               map (fun rq => (id, (o_link o, dr_filter rq, dr_idx rq),
+                               KEnd (tr_id t) (snd (dr_cursor rq)) (wnd_offs (o_inflight o) (dr_idx rq))))
+                   (filter unshared_b (tr_reqs (ss_tracker ss)))
+           | _ => []
+           end
+  | _, _, _ => []
+  end.
+
 Definition handle_device_payload_d (st : rstate) (id : N) : R (rstate * list dev) :=
   match slab_get (r_ibufs st) id with
   | None => Ok (st, [])
@@ -216,33 +251,51 @@ Definition handle_device_payload_d (st : rstate) (id : N) : R (rstate * list dev
       do st2 <- (if f_force_ack fl then reschedule st1 id SFreshData else Ok st1);
       do st3 <- (if f_new_data fl then drain_notifications st2 else Ok st2);
       do st4 <- (if f_disconnect fl then handle_disconnection st3 id (f_reason fl) else Ok st3);
-      Ok (st4, evs)
+      Ok (st4, evs ++ (if f_disconnect fl then disc_ghost st3 id st4 else []))
   end.
 
 (* ------------------------------------------------------------------ step and run, instrumented *)
-Definition unshared_b (rq : drequest) : bool := match dr_group rq with None => true | Some _ => false end.
 
 (** the markers of a Connect, read off its EFFECT: if [client] now owns a connection on the
     fresh link [link], one [KRes] per non-shared request its tracker starts with (none unless a
-    saved session was restored) *)
+    saved session was restored), with the offset of the cursor it starts with *)
 Definition conn_ghost (st' : rstate) (client : str) (link : N) : list dev :=
   match al_get str_eqb client (r_cmap st') with
   | Some id =>
       match slab_get (r_obufs st') id, slab_get (r_trackers st') id with
       | Some o, Some t =>
           if o_link o =? link
-          then map (fun rq => (id, (link, dr_filter rq, dr_idx rq), KRes)) (filter unshared_b (tr_reqs t))
+          then map (fun rq => (id, (link, dr_filter rq, dr_idx rq), KRes client (snd (dr_cursor rq))))
+                   (filter unshared_b (tr_reqs t))
           else []
       | _, _ => []
       end
   | None => []
   end.
 
+(** the take-over part of a Connect: the live connection of the same client id, if any, is
+    disconnected first (in the state with the new link already appended) *)
+Definition take_ghost (st1 : rstate) (client : str) : list dev :=
+  if validate_clientid client then
+    match al_get str_eqb client (r_cmap st1) with
+    | Some cid => match handle_disconnection st1 cid None with
+                  | Ok s => disc_ghost st1 cid s
+                  | _ => []
+                  end
+    | None => []
+    end
+  else [].
+
 Definition step_d (st : rstate) (o : rop) : R (rstate * rout * list dev) :=
   match o with
   | OpConsume => do (st1, b, evs) <- consume_d st; Ok (st1, OutConsume b, evs)
   | OpData id => do (st1, evs) <- handle_device_payload_d st id; Ok (st1, OutUnit, evs)
-  | OpConnect c => do (st1, out) <- step st o; Ok (st1, out, conn_ghost st1 (cr_client c) (lenN (r_links st)))
+  | OpConnect c =>
+      do (st1, out) <- step st o;
+      Ok (st1, out,
+          take_ghost (set_r_links st (r_links st ++ [{| lk_in := []; lk_out := [] |}])) (cr_client c)
+          ++ conn_ghost st1 (cr_client c) (lenN (r_links st)))
+  | OpDisconnect id => do (st1, out) <- step st o; Ok (st1, out, disc_ghost st id st1)
   | _ => do (st1, out) <- step st o; Ok (st1, out, [])
   end.
 
@@ -426,27 +479,39 @@ Lemma ktrace_app K a b : ktrace K (a ++ b) = ktrace K a ++ ktrace K b.
 Proof. unfold ktrace. now rewrite filter_app, map_app. Qed.
 Lemma ktrace_nil K : ktrace K [] = [].
 Proof. reflexivity. Qed.
-Lemma ktrace_cons_same K id a tr : ktrace K ((id, K, a) :: tr) = a :: ktrace K tr.
-Proof. unfold ktrace. cbn [filter fst snd]. now rewrite dkey_eqb_refl. Qed.
+Lemma ktrace_cons_same K id a tr : is_end a = false -> ktrace K ((id, K, a) :: tr) = a :: ktrace K tr.
+Proof. intros H. unfold ktrace. cbn [filter fst snd]. now rewrite dkey_eqb_refl, H. Qed.
 Lemma ktrace_cons_other K K' id a tr : K <> K' -> ktrace K ((id, K', a) :: tr) = ktrace K tr.
 Proof. intros H. unfold ktrace. cbn [filter fst snd]. now rewrite (dkey_eqb_neq _ _ H). Qed.
+Lemma ktrace_cons_end K K' id a tr : is_end a = true -> ktrace K ((id, K', a) :: tr) = ktrace K tr.
+Proof. intros H. unfold ktrace. cbn [filter fst snd]. rewrite H. cbn [negb]. now rewrite andb_false_r. Qed.
 
-Lemma ktrace_In K tr a : In a (ktrace K tr) <-> exists id, In (id, K, a) tr.
+Lemma ktrace_In K tr a : In a (ktrace K tr) <-> is_end a = false /\ exists id, In (id, K, a) tr.
 Proof.
   unfold ktrace. rewrite in_map_iff. split.
   - intros ([[id K'] a'] & E & Hin). cbn [snd] in E. subst a'. apply filter_In in Hin as [Hin Hk].
-    cbn [fst snd] in Hk. apply dkey_eqb_true in Hk. subst K'. eauto.
-  - intros (id & Hin). exists (id, K, a). split; [reflexivity|]. apply filter_In. split; [exact Hin|].
-    cbn [fst snd]. apply dkey_eqb_refl.
+    cbn [fst snd] in Hk. apply andb_true_iff in Hk as [Hk He]. apply dkey_eqb_true in Hk. subst K'.
+    apply negb_true_iff in He. eauto.
+  - intros (He & id & Hin). exists (id, K, a). split; [reflexivity|]. apply filter_In. split; [exact Hin|].
+    cbn [fst snd]. now rewrite dkey_eqb_refl, He.
 Qed.
 
 (** events that all carry key [K'] *)
 Lemma ktrace_all_same K id (l : list kev) :
-  ktrace K (map (fun a => (id, K, a)) l) = l.
-Proof. induction l as [|a l IH]; cbn [map]; [reflexivity|]. now rewrite ktrace_cons_same, IH. Qed.
+  forallb (fun a => negb (is_end a)) l = true -> ktrace K (map (fun a => (id, K, a)) l) = l.
+Proof.
+  induction l as [|a l IH]; cbn [map forallb]; [reflexivity|]. intros H. apply andb_true_iff in H as [H1 H2].
+  apply negb_true_iff in H1. now rewrite ktrace_cons_same, IH.
+Qed.
 Lemma ktrace_all_other K K' id (l : list kev) :
   K <> K' -> ktrace K (map (fun a => (id, K', a)) l) = [].
 Proof. intros H. induction l as [|a l IH]; cbn [map]; [reflexivity|]. now rewrite ktrace_cons_other. Qed.
+Lemma ktrace_all_end K (l : list dev) :
+  forallb (fun e : dev => is_end (snd e)) l = true -> ktrace K l = [].
+Proof.
+  induction l as [|[[id K'] a] l IH]; cbn [forallb snd]; [reflexivity|]. intros H. apply andb_true_iff in H as [H1 H2].
+  now rewrite ktrace_cons_end, IH.
+Qed.
 
 (* ------------------------------------------------------------------ chains *)
 Lemma last_opt_snoc {X} (l : list X) x : last_opt (l ++ [x]) = Some x.
@@ -495,22 +560,32 @@ Proof.
   destruct r as [|b r]; [exact I|]. cbn [kchain kchain_from] in *. tauto.
 Qed.
 
-Lemma ok_next_mono a b : ok_next a b -> nxt a <= nxt b.
-Proof. destruct a, b; cbn [ok_next nxt]; try lia; try contradiction. Qed.
+Lemma ok_next_mono a b : is_res a = false -> ok_next a b -> nxt a <= nxt b.
+Proof. intros Ha. destruct b; cbn [ok_next nxt]; first [lia | contradiction | (intros [-> H]; now apply H)]. Qed.
 
-Lemma kchain_from_mono a l : kchain_from a l -> forall b, In b l -> nxt a <= nxt b.
+(** neither a resume marker nor an end marker ever follows anything *)
+Lemma kchain_from_nores a l : kchain_from a l -> forall b, In b l -> is_res b = false /\ is_end b = false.
 Proof.
   revert a. induction l as [|c l IH]; intros a H b Hb; [destruct Hb|].
-  cbn [kchain_from] in H. destruct H as [H1 H2]. apply ok_next_mono in H1.
-  destruct Hb as [<- | Hb]; [exact H1|]. specialize (IH _ H2 _ Hb). lia.
+  cbn [kchain_from] in H. destruct H as [H1 H2].
+  destruct Hb as [<- | Hb]; [destruct c; cbn [ok_next] in H1; try contradiction; auto|]. eapply IH; eassumption.
 Qed.
 
-Lemma kchain_from_fwd_ge a l : kchain_from a l -> forall off p, In (KFwd off p) l -> nxt a <= off.
+Lemma kchain_from_mono a l : kchain_from a l -> is_res a = false -> forall b, In b l -> nxt a <= nxt b.
 Proof.
-  revert a. induction l as [|c l IH]; intros a H off p Hb; [destruct Hb|].
+  revert a. induction l as [|c l IH]; intros a H Ha b Hb; [destruct Hb|].
+  pose proof (proj1 (kchain_from_nores _ _ H c (or_introl eq_refl))) as Hc.
+  cbn [kchain_from] in H. destruct H as [H1 H2]. apply (ok_next_mono _ _ Ha) in H1.
+  destruct Hb as [<- | Hb]; [exact H1|]. specialize (IH _ H2 Hc _ Hb). lia.
+Qed.
+
+Lemma kchain_from_fwd_ge a l : kchain_from a l -> is_res a = false -> forall off p, In (KFwd off p) l -> nxt a <= off.
+Proof.
+  revert a. induction l as [|c l IH]; intros a H Ha off p Hb; [destruct Hb|].
+  pose proof (proj1 (kchain_from_nores _ _ H c (or_introl eq_refl))) as Hc.
   cbn [kchain_from] in H. destruct H as [H1 H2].
-  destruct Hb as [-> | Hb]; [destruct a; cbn [ok_next nxt] in *; lia|].
-  apply ok_next_mono in H1. specialize (IH _ H2 _ _ Hb). lia.
+  destruct Hb as [-> | Hb]; [cbn [ok_next] in H1; lia|].
+  apply (ok_next_mono _ _ Ha) in H1. specialize (IH _ H2 Hc _ _ Hb). lia.
 Qed.
 
 Lemma fwd_offs_In l off : In off (fwd_offs l) <-> exists p, In (KFwd off p) l.
@@ -525,27 +600,27 @@ Lemma kchain_from_increasing a l : kchain_from a l -> increasing (fwd_offs l).
 Proof.
   revert a. induction l as [|b l IH]; intros a H; [constructor|].
   cbn [kchain_from] in H. destruct H as [H1 H2]. unfold fwd_offs. cbn [flat_map].
-  destruct b as [off p| | |]; cbn [app]; try (eapply IH; eassumption).
+  destruct b as [off p| | | |]; cbn [app]; try (eapply IH; eassumption).
   constructor; [eapply IH; eassumption|]. apply Forall_forall. intros x Hx.
-  apply fwd_offs_In in Hx as (q & Hq). pose proof (kchain_from_fwd_ge _ _ H2 _ _ Hq) as Hge. cbn [nxt] in Hge. lia.
+  apply fwd_offs_In in Hx as (q & Hq). pose proof (kchain_from_fwd_ge _ _ H2 eq_refl _ _ Hq) as Hge. cbn [nxt] in Hge. lia.
 Qed.
 
 Lemma kchain_increasing l : kchain l -> increasing (fwd_offs l).
 Proof.
   destruct l as [|a l]; [constructor|]. cbn [kchain]. intros H.
   pose proof (kchain_from_increasing _ _ H) as Hi.
-  unfold fwd_offs. cbn [flat_map]. destruct a as [off p| | |]; cbn [app]; try exact Hi.
+  unfold fwd_offs. cbn [flat_map]. destruct a as [off p| | | |]; cbn [app]; try exact Hi.
   constructor; [exact Hi|]. apply Forall_forall. intros x Hx.
-  apply fwd_offs_In in Hx as (q & Hq). pose proof (kchain_from_fwd_ge _ _ H _ _ Hq) as Hge. cbn [nxt] in Hge. lia.
+  apply fwd_offs_In in Hx as (q & Hq). pose proof (kchain_from_fwd_ge _ _ H eq_refl _ _ Hq) as Hge. cbn [nxt] in Hge. lia.
 Qed.
 
 (** everything between where [a] continues and where the last event of [l] continues is
     accounted for in [l] *)
 Lemma kchain_from_covered a l :
-  kchain_from a l -> a <> KRes ->
+  kchain_from a l ->
   forall x, nxt a <= x -> x < nxt (match last_opt l with Some b => b | None => a end) -> covered x l.
 Proof.
-  revert a. induction l as [|b l IH]; intros a H Hna x Hlo Hhi.
+  revert a. induction l as [|b l IH]; intros a H x Hlo Hhi.
   - cbn [last_opt] in Hhi. lia.
   - cbn [kchain_from] in H. destruct H as [H1 H2].
     assert (Hl : match last_opt (b :: l) with Some c => c | None => a end =
@@ -554,16 +629,13 @@ Proof.
       destruct (last_opt (c :: l)) eqn:E; [reflexivity|].
       exfalso. clear -E. revert c E. induction l as [|d l IHl]; intros c E; [discriminate|]. now apply (IHl d). }
     rewrite Hl in Hhi.
-    assert (Hnb : b <> KRes) by (intros ->; destruct a; cbn [ok_next] in H1; try contradiction; now apply Hna).
     destruct (N.lt_ge_cases x (nxt b)) as [Hx | Hx].
     + (* accounted for by [b] itself *)
-      destruct a as [ao ap|af at'|ae|]; [| | |exfalso; now apply Hna];
-        (destruct b as [off p|from to|e|]; cbn [ok_next nxt] in *;
-         [left; exists p; left; f_equal; lia
-         |right; left; exists from, to; split; [now left|lia]
-         |right; right; exists e; split; [now left|lia]
-         |contradiction]).
-    + destruct (IH _ H2 Hnb x Hx Hhi) as [(p & Hp) | [(from & to & Hj & Hr) | (e & He & Hr)]].
+      destruct b as [off p|from to|e|cl c0|cl r w]; cbn [ok_next nxt] in *; try contradiction.
+      * left. exists p. left. f_equal. lia.
+      * right. left. exists from, to. split; [now left|lia].
+      * right. right. exists e. split; [now left|lia].
+    + destruct (IH _ H2 x Hx Hhi) as [(p & Hp) | [(from & to & Hj & Hr) | (e & He & Hr)]].
       * left. exists p. now right.
       * right. left. exists from, to. split; [now right|exact Hr].
       * right. right. exists e. split; [now right|exact Hr].
@@ -598,67 +670,53 @@ Qed.
 Definition mkfwd (x : N * publish) : kev := KFwd (fst x) (snd x).
 
 Lemma kchain_from_fwds : forall (fw : list (N * publish)) a p,
-  a = KRes \/ nxt a = p -> map fst fw = Nseq p (length fw) ->
-  kchain_from a (map mkfwd fw) /\ (fw <> [] \/ nxt a = p -> nxt (lastd a (map mkfwd fw)) = p + lenN fw).
+  nxt a = p -> map fst fw = Nseq p (length fw) ->
+  kchain_from a (map mkfwd fw) /\ nxt (lastd a (map mkfwd fw)) = p + lenN fw /\
+  (fw <> [] -> is_res (lastd a (map mkfwd fw)) = false).
 Proof.
   induction fw as [|[off q] fw IH]; intros a p Ha Hs; cbn [map kchain_from].
-  - split; [exact I|]. unfold lastd. cbn [last_opt]. rewrite lenN_nil. intros [X | X]; [congruence|lia].
+  - split; [exact I|]. unfold lastd. cbn [last_opt]. rewrite lenN_nil. split; [lia|congruence].
   - cbn [length Nseq map fst] in Hs. injection Hs as Ho Hs. subst off.
-    destruct (IH (KFwd p q) (p + 1) (or_intror eq_refl) Hs) as [H1 H2]. split.
-    + split; [|exact H1]. destruct Ha as [-> | Ha]; [exact I|]. destruct a; cbn [mkfwd ok_next fst nxt] in *; first [lia | exact I].
+    destruct (IH (KFwd p q) (p + 1) eq_refl Hs) as (H1 & H2 & H3). split; [|split].
+    + split; [cbn [mkfwd ok_next fst]; lia|exact H1].
+    + unfold lastd at 1. rewrite last_opt_cons_lastd. change (mkfwd (p, q)) with (KFwd p q). rewrite H2, lenN_cons. lia.
     + intros _. unfold lastd at 1. rewrite last_opt_cons_lastd. change (mkfwd (p, q)) with (KFwd p q).
-      rewrite H2 by (right; reflexivity). rewrite lenN_cons. lia.
+      destruct fw as [|x fw']; [reflexivity|]. apply H3. discriminate.
 Qed.
 
 Lemma sweep_chain (l : list kev) (c0 base p : N) (st : bool) (fw : list (N * publish)) :
   kchain l ->
-  (forall a, last_opt l = Some a -> a = KRes \/ (c0 = nxt a /\ (st = true -> c0 <= base))) ->
+  (forall a, last_opt l = Some a -> c0 = nxt a /\ (st = true -> is_res a = false -> c0 <= base)) ->
   p = (if st then base else c0) ->
   map fst fw = Nseq p (length fw) ->
   let evs := (if st then [KJump c0 base] else []) ++ map mkfwd fw in
-  kchain (l ++ evs) /\ (forall a, last_opt (l ++ evs) = Some a -> a = KRes \/ nxt a = p + lenN fw).
+  kchain (l ++ evs) /\ (forall a, last_opt (l ++ evs) = Some a -> nxt a = p + lenN fw).
 Proof.
   intros Hl Hlast Hp Hs evs. destruct st.
   - (* stale: a jump first *)
-    subst p. destruct (kchain_from_fwds fw (KJump c0 base) base (or_intror eq_refl) Hs) as [H1 H2].
+    subst p. destruct (kchain_from_fwds fw (KJump c0 base) base eq_refl Hs) as (H1 & H2 & _).
     assert (E : evs = KJump c0 base :: map mkfwd fw) by reflexivity. rewrite E. split.
     + apply kchain_append; [exact Hl| |intros _; exact H1].
-      intros a Ha. cbn [kchain_from]. split; [|exact H1].
-      destruct (Hlast a Ha) as [-> | [E1 E2]]; [exact I|]. destruct a; cbn [ok_next]; auto.
-    + intros a Ha. rewrite last_opt_app_ne in Ha by discriminate. rewrite last_opt_cons_lastd in Ha. inversion Ha; subst a.
-      right. apply H2. right. reflexivity.
+      intros a Ha. destruct (Hlast a Ha) as [E1 E2]. cbn [kchain_from ok_next]. split; [split; [exact E1|now apply E2]|exact H1].
+    + intros a Ha. rewrite last_opt_app_ne in Ha by discriminate. rewrite last_opt_cons_lastd in Ha. inversion Ha; subst a. exact H2.
   - subst p. assert (E : evs = map mkfwd fw) by reflexivity. rewrite E. split.
     + apply kchain_append; [exact Hl| |].
-      * intros a Ha. apply (kchain_from_fwds fw a c0); [|exact Hs].
-        destruct (Hlast a Ha) as [-> | [E1 _]]; [now left|right; now symmetry].
+      * intros a Ha. destruct (Hlast a Ha) as [E1 _]. apply (kchain_from_fwds fw a c0); [now symmetry|exact Hs].
       * intros _. destruct fw as [|[off q] fw]; [exact I|]. cbn [map kchain mkfwd fst snd].
         cbn [length Nseq map fst] in Hs. injection Hs as Ho Hs. subst off.
-        apply (kchain_from_fwds fw (KFwd c0 q) (c0 + 1) (or_intror eq_refl) Hs).
+        apply (kchain_from_fwds fw (KFwd c0 q) (c0 + 1) eq_refl Hs).
     + intros a Ha. destruct fw as [|[off q] fw].
-      * cbn [map] in Ha. rewrite app_nil_r in Ha. destruct (Hlast a Ha) as [-> | [E1 _]]; [now left|].
-        right. rewrite lenN_nil. lia.
+      * cbn [map] in Ha. rewrite app_nil_r in Ha. destruct (Hlast a Ha) as [E1 _]. rewrite lenN_nil. lia.
       * rewrite last_opt_app_ne in Ha by discriminate. cbn [map mkfwd fst snd] in Ha.
         rewrite last_opt_cons_lastd in Ha. inversion Ha; subst a.
         cbn [length Nseq map fst] in Hs. injection Hs as Ho Hs. subst off.
-        destruct (kchain_from_fwds fw (KFwd c0 q) (c0 + 1) (or_intror eq_refl) Hs) as [_ H2].
-        right. change (mkfwd (c0, q)) with (KFwd c0 q). rewrite H2 by (right; reflexivity). rewrite lenN_cons. lia.
+        destruct (kchain_from_fwds fw (KFwd c0 q) (c0 + 1) eq_refl Hs) as (_ & H2 & _).
+        change (mkfwd (c0, q)) with (KFwd c0 q). rewrite H2, lenN_cons. lia.
 Qed.
 
-(** a resume marker never follows another kind of event *)
-Lemma kchain_from_nores a l : kchain_from a l -> a <> KRes -> forall b, In b l -> b <> KRes.
-Proof.
-  revert a. induction l as [|c l IH]; intros a H Ha b Hb; [destruct Hb|].
-  cbn [kchain_from] in H. destruct H as [H1 H2].
-  assert (Hc : c <> KRes) by (intros ->; destruct a; cbn [ok_next] in H1; try contradiction; now apply Ha).
-  destruct Hb as [<- | Hb]; [exact Hc|]. eapply IH; eassumption.
-Qed.
-
-(** a list of resume markers is a chain *)
-Lemma kchain_all_res (l : list kev) : Forall (fun a => a = KRes) l -> kchain l.
-Proof.
-  destruct l as [|a l]; [intros _; exact I|]. intros H. inversion H as [|? ? Ha Hr]; subst. cbn [kchain].
-  clear H. induction Hr as [|b l Hb Hr IH]; cbn [kchain_from]; [exact I|]. subst b. split; [exact I|exact IH].
-Qed.
+(** in a chain a resume marker can only be the first event *)
+Lemma kchain_res_head l : kchain l -> forall a r, l = a :: r -> forall b, In b r -> is_res b = false /\ is_end b = false.
+Proof. intros H a r -> b Hb. cbn [kchain] in H. eapply kchain_from_nores; eassumption. Qed.
 
 Lemma log_fwds_app a b : log_fwds (a ++ b) = log_fwds a ++ log_fwds b.
 Proof.
